@@ -883,8 +883,8 @@ class C10(System):
 
 SYSTEMS = [
     C10('c10.keys', 'keys', 1, 1),
-    C10('c10.history', 'history', 3, 3, tcap_q=60, tcap_t=300),
-    C10('c10.history4', 'history', 2, 4, tcap_q=20, tcap_t=600, one_config=True),
-    C10('c10.wide', 'wide', 2, 3, tcap_q=30, tcap_t=300),
-    C10('c10.evict', 'evict', 2, 3, tcap_q=40, tcap_t=200),
+    C10('c10.history', 'history', 3, 3, tcap_q=60, tcap_t=200),
+    C10('c10.history4', 'history', 2, 4, tcap_q=20, tcap_t=500, one_config=True),
+    C10('c10.wide', 'wide', 2, 3, tcap_q=30, tcap_t=250),
+    C10('c10.evict', 'evict', 2, 3, tcap_q=40, tcap_t=150),
 ]
